@@ -236,6 +236,14 @@ func modelLine(rr runRes) string {
 	return fmt.Sprintf("st=%s out=%s ri=%s acc=%s susp=%s", rr.st, rr.out, rr.ri, rr.acc, rr.susp)
 }
 
+// canonical model line of a `split` op from a C driver line (drop calls)
+func splitLine(rr runRes) string {
+	if rr.crash {
+		return rr.raw
+	}
+	return fmt.Sprintf("st=%s out=%s ri=%s acc=%s g1=%s susp=%s", rr.st, rr.out, rr.ri, rr.acc, rr.g1, rr.susp)
+}
+
 func peekGo(be bool, bs []byte) uint64 {
 	var v uint64
 	if be {
@@ -581,11 +589,34 @@ func sectionC(r *hlib.Run, rng *hlib.Rand, p *wpkg, bp *builtPkg, pools map[stri
 		return nil
 	})
 
+	lastCase := ""
 	for i, j := range jobs {
 		var ones []runRes
-		for _, fl := range flavours {
+		for fi, fl := range flavours {
 			one := parseRes(res1[fl.name][i][0])
 			ones = append(ones, one)
+			// correspondence: the executable model (Model/SplitRun.lean: the liveness result,
+			// the scratch machines, the control flow) runs the same coroutine, as the hook
+			// describes it, under the same chunking. First flavour only.
+			if lf, ok := bp.live["t."+j.f.name]; fi == 0 && ok {
+				if lf.Err != "" || lf.Untied != "" {
+					r.Count("C:model-not-run:" + firstN(lf.Err+lf.Untied, 60))
+				} else {
+					if lastCase != j.f.name {
+						lastCase = j.f.name
+						r.Op(fmt.Sprintf("case %s %d %s | %s | %s", j.f.name, len(lf.Vars), strings.Join(lf.Statuses, ","),
+							lf.TBody, strings.Join(lf.Ops, " ; ")), "defined")
+						r.Count("C:model-coroutines")
+					}
+					all := append(append([]string{}, j.lines...), dstLines[i]...)
+					outs := append(append([]string{}, res1[fl.name][i]...), res2[fl.name][i]...)
+					for k := range all {
+						f := strings.Fields(all[k]) // run <idx> <src> <dst> <hex>
+						r.Op(fmt.Sprintf("split %s %s %s", f[2], f[3], f[4]), splitLine(parseRes(outs[k])))
+						r.Count("C:model-runs")
+					}
+				}
+			}
 			r.Count("C:oneshot-status:" + statusClass(one))
 			lines := append(append([]string{}, j.lines[1:]...), dstLines[i]...)
 			kinds := append([]string{}, j.kinds[1:]...)
